@@ -83,6 +83,8 @@ def check_c15(ctx):
         "drawn kinds: tables, tuples, primitive aliases, enums; unions and aliases of collections or references are neither required nor "
         "forbidden; a reference to a type of another application is neither required nor forbidden in a per-application diagram",
         "field types are compared as text (primitive name or reference as written, inside Set / Sequence / List); multiplicity labels are not compared",
+        "whole-module diagrams (no project, one output) are judged for the two applications P and Q with tables keyed into each other only; "
+        "whole-module diagrams of the generated programs are not judged (the bare-name class aliases of tables, a known finding, show there in ever new roles)",
     ])
 
 
